@@ -1,6 +1,6 @@
 /- Proofs/FitInline.lean — `replace_step` with a closed slice of leaf / text nodes (typed text, hard
    breaks, images: `Slice.inlineLeaves`) returns in the model: the loop of `fit` keeps an invariant
-   (`LoopInv`: every frontier entry holds a match, `placed` has a last-child chain as long as the
+   (`FitLoopInv`: every frontier entry holds a match, `placed` has a last-child chain as long as the
    frontier, the unplaced slice stays closed and flat) under which no step raises; it terminates
    (Proofs/FitLoop.lean); `must_move_inline` and `close` go through as for deletions
    (Proofs/FitDelete.lean). -/
@@ -220,7 +220,7 @@ theorem openMany_ok (S : Schema) (hw : WrapOK S) : ∀ (ws : List TypeId) (fr : 
 /-! ### the invariant of the loop for closed slices of leaf nodes -/
 
 /-- `D` = depth of `from` (for the `insert` of a replace-around step) -/
-structure LoopInv (S : Schema) (D : Nat) (st : FitState) : Prop where
+structure FitLoopInv (S : Schema) (D : Nat) (st : FitState) : Prop where
   frok : FrOK st.frontier
   ne : st.frontier ≠ []
   sp : rspineOK (st.frontier.length - 1) st.placed
@@ -291,7 +291,7 @@ theorem scanSlice_ok0 (S : Schema) (hdet : DetS S) (hf : FillersOK S) (pass2 : B
   | none => exact ⟨none, rfl⟩
 
 theorem findFittable_ok (S : Schema) (hdet : DetS S) (hf : FillersOK S) (D : Nat) (st : FitState)
-    (inv : LoopInv S D st) : ∃ r, findFittable S st = .ok r := by
+    (inv : FitLoopInv S D st) : ∃ r, findFittable S st = .ok r := by
   unfold findFittable
   simp only [inv.os0]
   have hs : fittableStart S 0 0 0 st.unplaced.content st.unplaced.openEnd = .ok 0 := rfl
@@ -363,8 +363,8 @@ theorem closeMany_size (S : Schema) : ∀ (n : Nat) (fr : List FItem) (placed : 
 /-! ### `place_nodes` goes through and keeps the invariant -/
 
 theorem placeNodes_ok (S : Schema) (hdet : DetS S) (hf : FillersOK S) (hw : WrapOK S) (D : Nat)
-    (st : FitState) (inv : LoopInv S D st) (f : Fittable) (hfit : findFittable S st = .ok (some f)) :
-    ∃ st', placeNodes S st f = .ok st' ∧ LoopInv S D st' := by
+    (st : FitState) (inv : FitLoopInv S D st) (f : Fittable) (hfit : findFittable S st = .ok (some f)) :
+    ∃ st', placeNodes S st f = .ok st' ∧ FitLoopInv S D st' := by
   obtain ⟨lvl, it, hsd, hlvl, hpar, hit, kind, _⟩ := findFittable_kind S st f hfit
   have hsd0 : f.sliceDepth = 0 := by have := inv.os0; omega
   rw [hsd0] at hlvl
@@ -551,7 +551,7 @@ theorem placeNodes_ok (S : Schema) (hdet : DetS S) (hf : FillersOK S) (hw : Wrap
 
 /-! ### `open_more`, `drop_node`, the whole iteration -/
 
-theorem openMore_none (S : Schema) (D : Nat) (st : FitState) (inv : LoopInv S D st) : openMore st = .ok none := by
+theorem openMore_none (S : Schema) (D : Nat) (st : FitState) (inv : FitLoopInv S D st) : openMore st = .ok none := by
   unfold openMore
   simp only [inv.os0, contentAt, bind, Except.bind, pure, Except.pure]
   cases hc : st.unplaced.content with
@@ -561,8 +561,8 @@ theorem openMore_none (S : Schema) (D : Nat) (st : FitState) (inv : LoopInv S D 
     rw [inv.leaf first (by rw [hc]; simp)]
     rfl
 
-theorem dropNode_ok (S : Schema) (D : Nat) (st : FitState) (inv : LoopInv S D st) :
-    ∃ st', dropNode st = .ok st' ∧ LoopInv S D st' := by
+theorem dropNode_ok (S : Schema) (D : Nat) (st : FitState) (inv : FitLoopInv S D st) :
+    ∃ st', dropNode st = .ok st' ∧ FitLoopInv S D st' := by
   unfold dropNode
   simp only [inv.os0, contentAt, bind, Except.bind, pure, Except.pure, Nat.lt_irrefl, decide_false,
     Bool.and_false, Bool.false_eq_true, if_false, dropFromFragment]
@@ -573,7 +573,7 @@ theorem dropNode_ok (S : Schema) (D : Nat) (st : FitState) (inv : LoopInv S D st
     exact inv.tys n (List.mem_of_mem_drop hn)
 
 theorem fitStep_ok (S : Schema) (hdet : DetS S) (hf : FillersOK S) (hw : WrapOK S) (D : Nat)
-    (st : FitState) (inv : LoopInv S D st) : ∃ st', fitStep S st = .ok st' ∧ LoopInv S D st' := by
+    (st : FitState) (inv : FitLoopInv S D st) : ∃ st', fitStep S st = .ok st' ∧ FitLoopInv S D st' := by
   obtain ⟨r, hr⟩ := findFittable_ok S hdet hf D st inv
   unfold fitStep
   rw [FM.bind_eq hr]
@@ -587,8 +587,8 @@ theorem fitStep_ok (S : Schema) (hdet : DetS S) (hf : FillersOK S) (hw : WrapOK 
 /-- **the loop of `fit` returns** on a closed slice of leaf nodes, and its final state satisfies the
     invariant -/
 theorem fitLoop_ok (S : Schema) (hdet : DetS S) (hf : FillersOK S) (hw : WrapOK S) (D : Nat) :
-    ∀ (fuel : Nat) (st : FitState), LoopInv S D st → fitMeasure st.unplaced (cpot S st) < fuel →
-      ∃ st', fitLoop S fuel st = .ok st' ∧ LoopInv S D st'
+    ∀ (fuel : Nat) (st : FitState), FitLoopInv S D st → fitMeasure st.unplaced (cpot S st) < fuel →
+      ∃ st', fitLoop S fuel st = .ok st' ∧ FitLoopInv S D st'
   | 0, st, _, h => by omega
   | fuel + 1, st, inv, hm => by
     unfold fitLoop
@@ -679,7 +679,7 @@ theorem replaceStep_inline_total (S : Schema) (hdet : DetS S) (hfill : FillersOK
     | false =>
       simp only
       obtain ⟨st0, h0, hu, hfr, hlen, hsp, hsz⟩ := fitInit_ok S hrf hv sl
-      have inv0 : LoopInv S rf.depth st0 := by
+      have inv0 : FitLoopInv S rf.depth st0 := by
         refine ⟨hfr, ?_, by rw [hlen, Nat.add_sub_cancel]; exact hsp, ?_, ?_, by rw [hu]; exact hos,
           by rw [hu]; exact hoe, by rw [hlen, hsz]; omega⟩
         · intro h; rw [h] at hlen; simp at hlen
